@@ -31,6 +31,15 @@ Definition doc_sites : list site := [
   mkSite "sylt-compiler/src/compiler.rs" "phases" "usage_count"
     "let mut usage: Vec<_> = usage_count.iter().map(|(k, v)| (k.0, *v)).collect(); usage.sort();"
     DumpOnly;
+  (* Statement::Blob fields IS a HashMap: the types of all fields are flat-mapped into a BTreeSet of the
+     mentioned type variables (the set is then walked in ascending order): collect into a set (/repo 58eff66) *)
+  mkSite "sylt-compiler/src/dependency.rs" "mentioned" "fields"
+    "fields.values().flat_map(|(_, ty)| ty_dependency(ty)).collect() }"
+    CollectMap;
+  (* Statement::Enum variants IS a HashMap: same consumer *)
+  mkSite "sylt-compiler/src/dependency.rs" "mentioned" "variants"
+    "variants.values().flat_map(|(_, ty)| ty_dependency(ty)).collect() }"
+    CollectMap;
   (* resolved Expression::Blob fields is a Vec *)
   mkSite "sylt-compiler/src/dependency.rs" "dependencies" "fields"
     "E::Blob { blob, fields, .. } => fields .iter() .map(|(_, expr)| dependencies(expr)) .flatten() .chain([*blob]) .collect(), E::Collection { values, .. } => values .iter() .map(|expr| dependencies(expr)) .flatten() .collect(), E::Float(_, _) | E::Int(_, _) | E::Str(_, _) | E::Bool(_, _) | E::Nil(_) => BTreeSet::new(), }"
